@@ -6,3 +6,4 @@ RULE = "operations: nonzero subset rslice padded where like concat1; " + fam_rao
 def run(R, tier, rng):
     fam_raops.run_family(R, tier, rng, set("nonzero subset rslice padded where like concat1".split()))
     fam_ra2.run_c08(R, tier, rng)
+    fam_ra2.ownership_stage(R, tier, rng)
